@@ -49,12 +49,28 @@ def _make(algo, o):
     raise ValueError(algo)
 
 
+PRIOR = [dict(shape=[3, 4], coo=[[0, 0, 1], [0, 1, 2], [1, 1, 1], [1, 2, 3], [2, 3, 1], [2, 0, 1]], dtype='int', fmt='csr'),
+         dict(shape=[5, 5], coo=[[0, 1, 1], [1, 0, 1], [1, 2, 2], [2, 1, 2], [2, 3, 1], [3, 2, 1], [3, 4, 1], [4, 3, 1]], dtype='int',
+              fmt='csr')]
+
+
 def fit(a):
     """Fit one estimator; return every attribute named by the property."""
     np.random.seed(int(a.get('np_seed', 0)))
     m = mk_matrix(a['m'])
     algo = a['algo']
     est = _make(algo, a.get('options', {}))
+    if a.get('prior'):
+        # the same estimator object was fitted before, on a bipartite and on a square graph: nothing of these fits may survive
+        for spec in PRIOR:
+            try:
+                if algo == 'propagation':
+                    est.fit(mk_matrix(spec))
+                else:
+                    est.fit(mk_matrix(spec), force_bipartite=False)
+            except Exception:  # noqa
+                pass
+        np.random.seed(int(a.get('np_seed', 0)))
     if algo == 'propagation':
         est.fit(m)
     else:
